@@ -751,7 +751,7 @@ def selftest():
 def subchecks(tier, seed):
     quick = tier == "quick"
     return [
-        SubCheck("structure", body_structure, strategy=structure_strategy(), examples=600 if quick else 12000, cases=pinned_structure(), shards=16),
-        SubCheck("constructors", body_constructors, strategy=constructors_strategy(), examples=500 if quick else 10000, cases=pinned_constructors(), shards=16),
-        SubCheck("onepercent", body_onepercent, strategy=onepercent_strategy(), examples=600 if quick else 16000, cases=pinned_onepercent(), shards=16),
+        SubCheck("structure", body_structure, strategy=structure_strategy(), examples=800 if quick else 20000, cases=pinned_structure(), shards=16),
+        SubCheck("constructors", body_constructors, strategy=constructors_strategy(), examples=700 if quick else 16000, cases=pinned_constructors(), shards=16),
+        SubCheck("onepercent", body_onepercent, strategy=onepercent_strategy(), examples=1000 if quick else 40000, cases=pinned_onepercent(), shards=16),
     ]
